@@ -1,10 +1,10 @@
 (* C03/Props.v — the property theorems, nothing else.
    Model: C03/Model.v (mirrors src/ircdb.py capability algebra, CapabilitySet,
    UserCapabilitySet, checkCapability, _checkCapabilityForUnknownUser).
-   Proofs: Fold.v, CaseInsens.v, Anti.v, Total.v, Reach.v, Spec.v, Chan.v. *)
+   Proofs: Fold.v, CaseInsens.v, Anti.v, Total.v, Reach.v, Spec.v, Chan.v, Hist.v. *)
 From Coq Require Import List NArith Bool.
 Import ListNotations.
-Require Import Base.Wire Base.PyStr C03.Model C03.Fold C03.CaseInsens C03.Anti C03.Total C03.Reach C03.Spec C03.Chan.
+Require Import Base.Wire Base.PyStr C03.Model C03.Fold C03.CaseInsens C03.Anti C03.Total C03.Reach C03.Spec C03.Chan C03.Hist.
 
 (* No exception escapes for a well-formed capability (non-empty, no
    whitespace), whatever the database and the three ignore* flags. *)
@@ -235,4 +235,48 @@ Theorem C03_boundary_channel_follows_spec :
   Ok (spec_flags d (chn ++ COMMA :: x) (chn ++ COMMA :: DASH :: x) (Some (chn, x, DASH :: x)) f anti).
 Proof. exact boundary_channel_follows_spec. Qed.
 Print Assumptions C03_boundary_channel_follows_spec.
+
+(* "After any history of edits".  CapabilitySet.remove keeps the invariant of
+   C03_add_maintains_set_ok, and so does every history of add / remove edits on
+   a CapabilitySet or a UserCapabilitySet, failing edits (KeyError of remove,
+   the asserts of add) included: they leave the set unchanged.  Adds are of
+   capabilities on which invertCapability is an involution (dom_cap and their
+   anti-capabilities; outside: finding F21); removes are unrestricted. *)
+Theorem C03_remove_maintains_set_ok :
+  forall S c S', sets_ok S = true -> cs_remove S c = Ok S' -> sets_ok S' = true.
+Proof. exact cs_remove_preserves. Qed.
+Print Assumptions C03_remove_maintains_set_ok.
+
+Theorem C03_history_sets_ok :
+  forall user es S0, sets_ok S0 = true -> edits_ok es = true -> sets_ok (set_history user es S0) = true.
+Proof. exact set_history_ok. Qed.
+Print Assumptions C03_history_sets_ok.
+
+(* Hence every database whose sets came out of edit histories -- the account's
+   from the empty UserCapabilitySet, each channel's from IrcChannel()'s initial
+   set, the registry sets from the empty set -- satisfies db_ok, the hypothesis
+   of C03_anti_opposite(_flags), C03_refines_spec(_flags) and
+   C03_boundary_channel_follows_spec. *)
+Theorem C03_db_of_histories_ok :
+  forall eu hostok ecs ed er flag,
+  match eu with Some (es, _, _) => edits_ok es | None => true end = true ->
+  forallb (fun kv => edits_ok (fst (snd kv))) ecs = true ->
+  edits_ok ed = true -> edits_ok er = true ->
+  db_ok (db_of_histories eu hostok ecs ed er flag) = true.
+Proof. exact db_of_histories_ok. Qed.
+Print Assumptions C03_db_of_histories_ok.
+
+(* ircdb.checkCapabilities is all / any over checkCapability (default flags),
+   and total on well-formed capabilities *)
+Theorem C03_checkCapabilities_spec :
+  forall d cs (f : str -> bool) ra,
+  (forall c, In c cs -> checkCapability d c (Flags false false false) = Ok (f c)) ->
+  checkCapabilities d cs ra = Ok (if ra then forallb f cs else existsb f cs).
+Proof. exact checkCapabilities_spec. Qed.
+Print Assumptions C03_checkCapabilities_spec.
+
+Theorem C03_checkCapabilities_total :
+  forall d cs ra, forallb wf_cap cs = true -> exists b, checkCapabilities d cs ra = Ok b.
+Proof. exact checkCapabilities_total. Qed.
+Print Assumptions C03_checkCapabilities_total.
 
